@@ -155,6 +155,7 @@ def check(run, repo, world):
     _check_flush(run, repo, world)
     _check_none_iff_noanswer(run, repo, world, folder, targets)
     _check_atx_drain(run, repo, world)
+    _check_sequence_answers(run, repo, world)
 
 
 def _frame_arg_ok(world, modname, fn, a):
@@ -1255,3 +1256,69 @@ def _check_atx_drain(run, repo, world):
     run.ob("R-ATX-DRAIN", Q, True, "", where(mod, fn),
            sample={"rule": "R-ATX-DRAIN", "function": Q,
                    "drain loops": len(drain_tests), "sites": n_sites})
+
+
+def _check_sequence_answers(run, repo, world):
+    """run_sequence hands the generator, at each step, the answer to the
+    command of that step - and None for a step that sent nothing (a sleep or
+    progress marker): the variable passed to <seq>.send() is re-assigned on
+    every path between two sends, so an answer is delivered once, to the
+    step it belongs to."""
+    run.rule("R-SEQ-ANSWER", "run_sequence: the value sent into the "
+             "generator is assigned afresh on every path between two sends "
+             "(no step is handed the previous step's answer)")
+    from ..cfg import forward_worlds
+    from ..seq import assigned_names
+    n_sites = 0
+    for (cq, m) in ((HID + ".hid", HID), (SER + ".DriverSerialBase", SER)):
+        owner, fn = _fn(world, cq, "run_sequence")
+        mod = repo.mod(owner.mod)
+        Q = cq + ".run_sequence"
+        seqp = fn.args.args[1].arg
+        cfg = CFG(fn, may_raise=suspension_may_raise, name=Q)
+
+        def sends(node):
+            out = []
+            if node.ast is None or node.kind not in ("stmt", "test"):
+                return out
+            for c in _walk_no_nested(node.ast):
+                if isinstance(c, ast.Call) and isinstance(
+                        c.func, ast.Attribute) and c.func.attr == "send" \
+                        and unparse(c.func.value) == seqp and len(
+                            c.args) == 1:
+                    out.append(c)
+            return out
+
+        def tr(node, w):
+            # the send reads the variable before the statement's own
+            # assignment (`cmd = seq.send(response)`) takes effect
+            for c in sends(node):
+                if isinstance(c.args[0], ast.Name):
+                    w = w | {("delivered", c.args[0].id)}
+            if node.kind == "stmt" and node.ast is not None:
+                for nm in assigned_names(node.ast):
+                    w = w - {("delivered", nm)}
+            return w
+        W = forward_worlds(cfg, tr)
+        for n in cfg.reachable:
+            for c in sends(n):
+                n_sites += 1
+                a = c.args[0]
+                ok = isinstance(a, ast.Constant) or (
+                    isinstance(a, ast.Name) and not any(
+                        ("delivered", a.id) in w for w in W.at(n)))
+                bw = [w for w in W.at(n) if isinstance(a, ast.Name) and
+                      ("delivered", a.id) in w]
+                run.ob("R-SEQ-ANSWER", Q, ok,
+                       "`%s` can hand the generator a value it was already "
+                       "given at the previous step (no assignment of `%s` on "
+                       "the path %s): a sleep / progress step is answered "
+                       "with the preceding query's response" % (
+                           unparse(c), unparse(a), " -> ".join(
+                               "L%s" % x.lineno for x in W.trace(n, bw[0])[-8:]
+                               if x.lineno) if bw else ""),
+                       where(mod, c),
+                       sample={"rule": "R-SEQ-ANSWER", "function": Q})
+    run.floor("generator send sites in run_sequence", n_sites, 2)
+    # (the legacy synchronous hasseb driver, dali/driver/hasseb.py, is not
+    # among the drivers C16 names; its run_sequence has no such reset)
